@@ -258,15 +258,16 @@ def top(ctx, bstep, bt, btkey):
     if single:
         # one call whose start state is `if v == -1 { minus edge } else { plus edge }`
         c1 = bts[0]
-        sel3 = [a for a in c1.args[0:3] if a[0] == 'ite' and a[1] is Vm]
+        # (the selector may be stored under either polarity: ite(not c, A, B) is ite(c, B, A))
+        sel3 = [(a[2], a[3]) if a[1] is Vm else (a[3], a[2]) for a in c1.args[0:3] if a[0] == 'ite' and (a[1] is Vm or T.lnot(a[1]) is Vm)]
         okdir = pc_of(c1) == () and len(sel3) == 3
         ctx.check('C03.t.dir', A, 'direction', okdir, expected='v = 2[U < 1/2] - 1 in {-1,+1}; the call starts from the minus edge iff v == -1, else from the plus edge',
                   found='[%s] %s' % (' & '.join(show(c) for c in c1.pc), '; '.join(show(a)[:80] for a in c1.args[0:3])), sp=ls.sp, why='direction chosen uniformly; doubling goes backwards iff v = -1')
         if not okdir:
             return
         cm = cp = c1
-        edges_m = [lhs.get(a[2]) for a in sel3]
-        edges_p = [lhs.get(a[3]) for a in sel3]
+        edges_m = [lhs.get(a[0]) for a in sel3]
+        edges_p = [lhs.get(a[1]) for a in sel3]
     else:
         callm = [e for e in bts if pc_of(e) == (Vm,)]
         callp = [e for e in bts if pc_of(e) == (T.lnot(Vm),)]
